@@ -70,6 +70,8 @@ def main():
         results = json.load(open(rpath))
     names = sorted(d for d in os.listdir(os.path.join(VERIF, "seeded")) if os.path.isdir(os.path.join(VERIF, "seeded", d)))
     names = [n for n in names if (not only or n in only) and (not rounds or n.split("-")[1] in rounds)]
+    # changes that a later repair of the library made harmless (their demonstration passes with the patch applied) are not part of the matrix
+    names = [n for n in names if "neutralised_by" not in json.load(open(os.path.join(VERIF, "seeded", n, "meta.json")))]
     os.makedirs(BASE, exist_ok=True)
     for j in range(jobs):
         wt = os.path.join(BASE, "wt%d" % j)
